@@ -57,6 +57,60 @@ Theorem viss_token_required st path :
   /\ viss_subscribe st TokBad path = (st, inr VTokenInvalid).
 Proof. repeat split. Qed.
 
+(* ---------- authorization disabled ---------- *)
+Lemma can_read_allow_all now path : can_read allow_all now path = Perm.POk.
+Proof. reflexivity. Qed.
+
+(* whatever the request carries, it is served as the gRPC handlers serve a request with ALLOW_ALL *)
+Theorem viss_open_get_is_v2_get st path d :
+  too_long path = false ->
+  (viss_get st TokOpen path = inl d <-> v2_get_value st allow_all (SigPath path) = RValue d).
+Proof.
+  intros TL. unfold viss_get, v2_get_value, viss_perms. cbn [v2_get_signal]. rewrite TL.
+  destruct (lookup_path (path_to_id (st_db st)) path) as [id|].
+  - destruct (read_entry (st_db st) allow_all (st_now st) id) as [e|err].
+    + split; intros H; inversion H; reflexivity.
+    + split; intros H; inversion H.
+  - split; intros H; inversion H.
+Qed.
+
+(* ... and never refused for want of a token or of a right: the only refusal of a get is "no such signal" *)
+Theorem viss_open_get_refusal st path e : viss_get st TokOpen path = inr e -> e = VNotFound.
+Proof.
+  unfold viss_get, viss_perms. destruct (lookup_path (path_to_id (st_db st)) path) as [id|]; [|intros H; inversion H; reflexivity].
+  unfold read_entry. destruct (lookup_id (entries (st_db st)) id) as [en|]; [|intros H; inversion H; reflexivity].
+  rewrite can_read_allow_all. discriminate.
+Qed.
+
+Theorem viss_open_set_is_full_rights st path x :
+  viss_set st TokOpen path x =
+  match lookup_path (path_to_id (st_db st)) path with
+  | None => (st, SetErr VNotFound)
+  | Some id =>
+    match lookup_id (entries (st_db st)) id with
+    | None => (st, SetErr VNotFound)
+    | Some e =>
+      if negb (entry_type_eqb (m_etype (e_meta e)) Actuator) then (st, SetErr VReadOnly)
+      else match parse_text (m_dtype (e_meta e)) x with
+           | TErr => (st, SetErr VBadRequest)
+           | TUnmodelled => (st, SetUnmodelled)
+           | TOk v =>
+             let '(st', errs) := update_entries st allow_all [(id, target_upd v)] in
+             (st', match errs with [] => SetOk | (_, err) :: _ => SetErr (update_verr err) end)
+           end
+    end
+  end.
+Proof. reflexivity. Qed.
+
+Theorem viss_open_subscribe_not_token_error st path st' e :
+  viss_subscribe st TokOpen path = (st', inr e) -> e <> VTokenMissing /\ e <> VTokenInvalid.
+Proof.
+  unfold viss_subscribe, viss_perms. destruct (lookup_path (path_to_id (st_db st)) path) as [id|].
+  - destruct (subscribe st allow_all [(id, {| f_dp := true; f_target := false; f_unit := false |})] None) as [st1 [h|[]]];
+      intros H; inversion H; subst; split; discriminate.
+  - intros H; inversion H; subst; split; discriminate.
+Qed.
+
 (* ---------- writing a target ---------- *)
 (* accepted iff the path names an actuator, the text parses to its data type, and the core accepts
    the typed value as a target update from that token — the very update kuksa.val.v1 Set issues *)
